@@ -36,3 +36,20 @@ func TestC16PutTwiceDrift(t *testing.T) {
 		t.Fatalf("C16 VIOLATION: cache emptied but reported byte total is %d (expected 0)", memoryBytesCounted.Value())
 	}
 }
+
+// Side observation (precondition `cv` of the Put contract): Validate accepts a non-nil but EMPTY CV; Put then panics.
+func TestC16PutEmptyCVPanics(t *testing.T) {
+	cacheHitCounter, cacheMissCounter, cacheNumItems, getDocumentCounter, getRevisionCounter, memoryBytesCounted := base.SgwIntStat{}, base.SgwIntStat{}, base.SgwIntStat{}, base.SgwIntStat{}, base.SgwIntStat{}, base.SgwIntStat{}
+	backingStoreMap := CreateTestSingleBackingStoreMap(&testBackingStore{nil, &getDocumentCounter, &getRevisionCounter}, testCollectionID)
+	cacheOptions := &RevisionCacheOptions{MaxItemCount: 10, MaxBytes: 0}
+	revCacheStats := revisionCacheStats{cacheHitStat: &cacheHitCounter, cacheMissStat: &cacheMissCounter, cacheNumItemsStat: &cacheNumItems, cacheMemoryStat: &memoryBytesCounted}
+	cache := NewLRURevisionCache(cacheOptions, backingStoreMap, revCacheStats, newCacheMemoryController(0, revCacheStats.cacheMemoryStat))
+	ctx := base.TestCtx(t)
+	defer func() {
+		if r := recover(); r != nil {
+			t.Fatalf("Put with an empty (non-nil) CV passed Validate and panicked: %v", r)
+		}
+	}()
+	err := cache.Put(ctx, DocumentRevision{DocID: "doc1", RevID: "1-abc", CV: &Version{}, BodyBytes: []byte(`{}`), History: Revisions{RevisionsStart: 1, RevisionsIds: []string{"abc"}}}, testCollectionID)
+	t.Logf("Put returned %v", err)
+}
